@@ -151,5 +151,5 @@ def replay(ctx, path):
     tr["kind"] = "replay"
     val = CT.validate(ctx, [tr], CLAUSES, name="replay")
     report(ctx, val)
-    if not val.rejects:
+    if not val.rejects and not val.known:
         print("replay: the trace is now accepted by CleanerTrace.tla")
